@@ -12,16 +12,19 @@ from .core import VERIF_ROOT
 from .runner import PY, REPO, shard_env
 
 
-def run_under_monitors(ctx, paths=("tests/unit",), jobs=6, timeout=1500):
+def run_under_monitors(ctx, paths=("tests/unit",), jobs=6, timeout=900):
     out = os.path.join(ctx.work, "repotests")
     os.makedirs(out, exist_ok=True)
     env = shard_env(dict(VMON_PLUGIN_OUT=out, VERIF_SEED=str(ctx.seed)))
-    cmd = [PY, "-m", "pytest", *paths, "-q", "-p", "no:cacheprovider", "-p", "vmon.pytest_plugin", "-n", str(jobs), "--timeout=900",
+    cmd = [PY, "-m", "pytest", *paths, "-q", "-p", "no:cacheprovider", "-p", "vmon.pytest_plugin", "-n", str(jobs), "--timeout=150",
            "-o", "addopts=", "--basetemp", os.path.join(out, "tmp")]
     try:
         p = subprocess.run(cmd, cwd=REPO, env=env, capture_output=True, text=True, timeout=timeout)
     except subprocess.TimeoutExpired:
-        ctx.tally("timeout:repository unit tests under monitors")
+        # the ride-along is supplementary traffic for the ambient monitors: if the repository's tests stall (their pool-based
+        # test occasionally does on a loaded machine) it is recorded and the direct workloads decide alone
+        ctx.tally("repotests:timed-out(not judged)")
+        ctx.note("repository unit tests under monitors did not finish within the time limit; not used")
         return
     tail = [ln for ln in p.stdout.splitlines() if " passed" in ln or " failed" in ln or " error" in ln]
     ctx.note(f"repository unit tests under ambient monitors: rc={p.returncode} {tail[-1] if tail else p.stdout[-200:]}")
